@@ -294,8 +294,12 @@ def _dom_fieldops(tier, seed):
         else:
             nnew = rng.randint(1, 3)
             arg = [("new%d" % j, rng.choice(["f8", "i4", ">i2", "S4", "f4"])) + (((2,),) if rng.random() < 0.2 else ()) for j in range(nnew)]
-            if rng.random() < 0.15:
+            if rng.random() < 0.2:
                 arg[0] = (names[0],) + tuple(arg[0][1:])
+                if rng.random() < 0.6:
+                    # an existing name is rejected whatever type is asked for, the field's own type included
+                    j = rng.randrange(len(names))
+                    arg[rng.randrange(len(arg))] = tuple(x for x in arr.dtype.descr if x[0] == names[j])[0]
             err = any(d[0] in names for d in arg)
             if rng.random() < 0.5:
                 extra = [(b"zz" if d[1] == "S4" else rng.randint(1, 9)) for d in arg]
